@@ -7,6 +7,7 @@ text-pipeline constants regenerated from units.py on every run (Gen/Units.lean, 
 `float(text)` and `str(float)` are trusted primitives (parameters `pyFloat`, `pyRepr`).
 -/
 import Strengths.Proofs.UnitsText
+import Strengths.Proofs.UnitsGrammar
 import Strengths.Props.C06
 
 namespace Strengths.C18
@@ -257,39 +258,106 @@ theorem permutation_dimension (f f' : Factor) (fs fs' : List Factor) (hd : f.div
   rw [finishFactors_dim h, finishFactors_dim h']
   exact factorsDim_perm (hp.map _)
 
-/-- FULL STATEMENT (not proved in this form): for every factor list `fs` of the grammar,
-`parseUnitsChars (renderFactors fs) = .ok u` iff no two factors name different base units of one kind,
-and then `u.dim = denoteDim fs ∧ siFactor u.sys u.dim = Π_f (SI value of f.sym) ^ f.signedExp`, the same
-for every permutation of `fs`.
-PROVED: the reading (`grammar_reading`), the dimension (`grammar_dimension`), invariance of the reading
-under `a/b ↔ a.b-1` (`slash_vs_negative_exponent`) and of the dimension under permutation
-(`permutation_dimension`); on acceptance every field named by a factor holds exactly the base unit that
-factor names (below), whose SI scales are the table facts `C06.scale_is_SI_*`, `C06.litre_family`,
-`C06.molar_family`; rejection when two factors disagree (`reject_two_units`).
-MISSING: the algebraic step from "every field holds the named base unit, exponent = Σ" to the product
-formula for `siFactor`, and "consistent ⇒ accepted".  Both are checked exactly (rational arithmetic) by the
-harness oracle on every 1-factor string, every symbol pair × both separators and random 3-factor strings. -/
-theorem grammar_semantics_partial (f : Factor) (fs : List Factor) (hdiv : f.div = false)
-    (hs : ∀ g ∈ f :: fs, g.sym ∈ allSyms) (u : Units)
-    (h : parseUnitsChars (renderFactors (f :: fs)) = .ok u) :
-    u.dim = denoteDim (f :: fs) ∧ u.sys.valid = true ∧
-    ∃ acc : Acc, u.sys = ⟨acc.space.getD defaultSpace, acc.time.getD defaultTime, acc.qty.getD defaultQty⟩ ∧
-      ∀ g ∈ f :: fs, ∀ n ∈ blockNames g.toBlock, acc.get n.1 = some n.2 := by
-  refine ⟨grammar_dimension f fs hdiv hs u h, ?_, ?_⟩
-  · have : parseUnits (String.ofList (renderFactors (f :: fs))) = .ok u := by simpa [parseUnits] using h
-    exact C06.parseUnits_valid this
-  · rw [parse_renderFactors f fs hdiv hs, finishFactors, ← addBlocks_factors] at h
-    cases hc : ({} : Acc).addBlocks ((f :: fs).map Factor.toBlock) with
-    | error x => rw [hc] at h; cases h
-    | ok acc =>
-      rw [hc] at h
-      simp only [] at h
-      split at h
-      · cases h
-        refine ⟨acc, rfl, ?_⟩
-        intro g hg n hn
-        exact (addBlocks_ok_get _ hc).1 g.toBlock (List.mem_map_of_mem hg) n hn
-      · cases h
+/-! ### Full grammar semantics: acceptance, dimension, SI scale, order -/
+
+/-- Spec: SI value of one unit of every documented symbol — metres, seconds, molecules, cubic metres,
+molecules per cubic metre — from the SI prefix meanings of `C06` (not from the code's tables) -/
+def specSI (s : String) : Option Rat :=
+  if s ∈ ["km", "m", "dm", "cm", "mm", "dmm", "cmm", "µm", "nm", "pm", "fm"] then C06.siSpace s.toList
+  else if s ∈ ["h", "min", "s", "ds", "cs", "ms", "µs", "ns", "ps", "fs"] then C06.siTime s.toList
+  else if s ∈ ["kmol", "mol", "dmol", "cmol", "mmol", "µmol", "nmol", "pmol", "fmol", "molecule"] then C06.siQty s.toList
+  else if s ∈ ["kL", "L", "mL", "µL", "nL", "pL", "fL"] then C06.siVolume s.toList
+  else if s ∈ ["kM", "M", "dM", "cM", "mM", "µM", "nM", "pM", "fM"] then
+    (C06.siMolarQty s.toList).map (· * 1000)       -- prefix·mol per litre = ·1000 per m³
+  else none
+
+/-- the SI value the `addunit` calls give every supported symbol (through the scale tables, the litre
+and the molar decomposition) is its SI meaning -/
+theorem symbol_si : ∀ s ∈ allSyms, specSI s = some (symSI s) := by decide +kernel
+
+/-- the SI scale a factor list denotes: Π (SI value of the symbol)^(signed exponent) -/
+def denoteSI (fs : List Factor) : Rat :=
+  fs.foldr (fun f r => ((specSI f.sym).getD 1) ^ f.signedExp * r) 1
+
+/-- no two factors name different base units of one base kind (litres name their cube-root length,
+molars name `…mol` and `dm`) -/
+def consistentF (fs : List Factor) : Prop :=
+  ∀ g1 ∈ fs, ∀ g2 ∈ fs, ∀ c1 ∈ symC g1.sym, ∀ c2 ∈ symC g2.sym, c1.1 = c2.1 → c1.2.1 = c2.2.1
+
+theorem consistentF_iff (fs : List Factor) :
+    consistentF fs ↔ consistentC (flatC (fs.map fun g => (g.sym, g.signedExp))) := by
+  constructor
+  · intro h c1 h1 c2 h2 hf
+    obtain ⟨p1, hp1, d1, hd1, rfl⟩ := mem_flatC h1
+    obtain ⟨p2, hp2, d2, hd2, rfl⟩ := mem_flatC h2
+    simp only [List.mem_map] at hp1 hp2
+    obtain ⟨g1, hg1, rfl⟩ := hp1
+    obtain ⟨g2, hg2, rfl⟩ := hp2
+    exact h g1 hg1 g2 hg2 d1 hd1 d2 hd2 hf
+  · intro h g1 hg1 g2 hg2 c1 hc1 c2 hc2 hf
+    have m1 : (c1.1, c1.2.1, g1.signedExp * c1.2.2) ∈ flatC (fs.map fun g => (g.sym, g.signedExp)) := by
+      simp only [flatC, List.mem_flatMap, List.mem_map]
+      exact ⟨(g1.sym, g1.signedExp), ⟨g1, hg1, rfl⟩, c1, hc1, rfl⟩
+    have m2 : (c2.1, c2.2.1, g2.signedExp * c2.2.2) ∈ flatC (fs.map fun g => (g.sym, g.signedExp)) := by
+      simp only [flatC, List.mem_flatMap, List.mem_map]
+      exact ⟨(g2.sym, g2.signedExp), ⟨g2, hg2, rfl⟩, c2, hc2, rfl⟩
+    exact h (c1.1, c1.2.1, g1.signedExp * c1.2.2) m1 (c2.1, c2.2.1, g2.signedExp * c2.2.2) m2 hf
+
+theorem factorsSI_eq_denote (fs : List Factor) (hs : ∀ g ∈ fs, g.sym ∈ allSyms) :
+    factorsSI (fs.map fun g => (g.sym, g.signedExp)) = denoteSI fs := by
+  induction fs with
+  | nil => rfl
+  | cons f fs ih =>
+    simp only [List.map_cons, factorsSI, denoteSI, List.foldr_cons]
+    rw [symbol_si f.sym (hs f (by simp))]
+    have := ih (fun g hg => hs g (by simp [hg]))
+    simp only [denoteSI] at this
+    rw [this]
+    rfl
+
+/-- **grammar semantics** (full statement).  For every factor list of the documented grammar —
+supported symbols incl. the litre and molar families, `.` and `/` separators, optional integer exponents:
+* it is accepted **iff** no two factors name different base units of one kind; otherwise it raises;
+* when accepted it is read with dimension Σ exponent × symbol dimension **and** SI scale
+  Π (SI value of the symbol)^(signed exponent), in a valid unit system. -/
+theorem grammar_semantics (f : Factor) (fs : List Factor) (hdiv : f.div = false)
+    (hs : ∀ g ∈ f :: fs, g.sym ∈ allSyms) :
+    ((∃ u, parseUnitsChars (renderFactors (f :: fs)) = .ok u) ↔ consistentF (f :: fs)) ∧
+    (¬ consistentF (f :: fs) → parseUnitsChars (renderFactors (f :: fs)) = .error .badUnit) ∧
+    (∀ u, parseUnitsChars (renderFactors (f :: fs)) = .ok u →
+      u.dim = denoteDim (f :: fs) ∧ siFactor u.sys u.dim = denoteSI (f :: fs) ∧ u.sys.valid = true) := by
+  have hs' : ∀ p ∈ (f :: fs).map (fun g => (g.sym, g.signedExp)), p.1 ∈ allSyms := by
+    intro p hp
+    simp only [List.mem_map] at hp
+    obtain ⟨g, hg, rfl⟩ := hp
+    exact hs g hg
+  rw [parse_renderFactors f fs hdiv hs, consistentF_iff]
+  refine ⟨finishFactors_ok_iff _ hs', finishFactors_error _ hs', ?_⟩
+  intro u h
+  refine ⟨?_, ?_, (finishFactors_ok_spec _ hs' u h).2.1⟩
+  · rw [finishFactors_dim h, factorsDim_eq_denote _ hs]
+  · rw [finishFactors_si _ hs' u h, factorsSI_eq_denote _ hs]
+
+/-- **order of the factors** (whole result): any permutation of the factors (written with the first
+factor un-slashed) is read identically — same acceptance, same unit system, same exponents. -/
+theorem grammar_permutation (f f' : Factor) (fs fs' : List Factor) (hd : f.div = false) (hd' : f'.div = false)
+    (hs : ∀ g ∈ f :: fs, g.sym ∈ allSyms) (hp : (f :: fs).Perm (f' :: fs')) :
+    parseUnitsChars (renderFactors (f :: fs)) = parseUnitsChars (renderFactors (f' :: fs')) := by
+  have hs2 : ∀ g ∈ f' :: fs', g.sym ∈ allSyms := fun g hg => hs g (hp.mem_iff.2 hg)
+  rw [parse_renderFactors f fs hd hs, parse_renderFactors f' fs' hd' hs2]
+  apply finishFactors_perm
+  · intro p hp'
+    simp only [List.mem_map] at hp'
+    obtain ⟨g, hg, rfl⟩ := hp'
+    exact hs g hg
+  · exact hp.map _
+
+/-- non-vacuity: an accepted 3-factor text and its SI scale; a rejected one -/
+example : consistentF [⟨false, "mM", none⟩, ⟨true, "min", some 2⟩, ⟨false, "L", some (-1)⟩] ∧
+    ¬ consistentF [⟨false, "mM", none⟩, ⟨true, "mL", none⟩] := by
+  constructor
+  · rw [consistentF_iff]; decide +kernel
+  · rw [consistentF_iff]; decide +kernel
 
 example : parseUnitsChars (renderFactors [⟨false, "µM", none⟩, ⟨true, "s", none⟩]) =
     .ok ⟨⟨"dm", "s", "µmol"⟩, ⟨-3, -1, 1⟩⟩ ∧ renderFactors [⟨false, "µM", none⟩, ⟨true, "s", none⟩] = "µM/s".toList := by
@@ -436,6 +504,100 @@ theorem reject_foreign_char (s : List Char) (x : Char) (hx : x ∈ s) (hsep : x 
 theorem reject_signed_positive (s : List Char) (hx : '+' ∈ s) : (parseUnitsCore s).isError = true :=
   reject_foreign_char s '+' hx (by decide) (by decide) (by decide) (by decide)
     (fun w hw hc => (symbols_alphabet w hw '+' hc).1 rfl)
+
+/-! ### The same rejection classes on the RAW text
+
+`stripBlank s0` is the raw text after Python's `strip()`.  The replace chain only turns some `u` into `µ`
+(`prepUnits_uq`), so every shape below carries over to the preprocessed text. -/
+
+theorem sep_exp_not_u : ∀ c ∈ sepChars ++ expChars, c ≠ 'u' ∧ c ≠ 'µ' := by decide
+
+theorem uq_split2 {s t a r : List Char} {x y : Char} (h : s.map uq = t.map uq) (ht : t = a ++ x :: y :: r) :
+    ∃ a' x' y' r', s = a' ++ x' :: y' :: r' ∧ uq x' = uq x ∧ uq y' = uq y := by
+  obtain ⟨a', x', r1, hs, _, hx, hr⟩ := uq_split h ht
+  rw [List.map_cons] at hr
+  obtain ⟨y', r', hl, hy, _⟩ := List.map_eq_cons_iff.1 hr
+  exact ⟨a', x', y', r', by rw [hs, hl], hx, hy⟩
+
+theorem raw_reject_doubled_separator (s0 a r : List Char) (c1 c2 : Char) (h : stripBlank s0 = a ++ c1 :: c2 :: r)
+    (h1 : c1 ∈ sepChars) (h2 : c2 ∈ sepChars) : (parseUnitsChars s0).isError = true := by
+  obtain ⟨a', x', y', r', hs, hx, hy⟩ := uq_split2 (prepUnits_uq s0) h
+  have e1 := uq_eq hx (sep_exp_not_u c1 (by simp [h1]))
+  have e2 := uq_eq hy (sep_exp_not_u c2 (by simp [h2]))
+  subst e1 e2
+  rw [parseUnitsChars, hs]
+  exact reject_doubled_separator a' r' x' y' h1 h2
+
+theorem raw_reject_dangling_separator (s0 a : List Char) (c : Char) (hc : c ∈ sepChars)
+    (h : stripBlank s0 = c :: a ∨ stripBlank s0 = a ++ [c]) : (parseUnitsChars s0).isError = true := by
+  rcases h with h | h
+  · obtain ⟨a', x', r', hs, ha, hx, _⟩ := uq_split (a := []) (prepUnits_uq s0) (by simpa using h)
+    have e1 := uq_eq hx (sep_exp_not_u c (by simp [hc]))
+    subst e1
+    have : a' = [] := by simpa using ha
+    subst this
+    rw [parseUnitsChars, hs]
+    exact (reject_dangling_separator r' x' hc).1
+  · obtain ⟨a', x', r', hs, _, hx, hr⟩ := uq_split (prepUnits_uq s0) h
+    have e1 := uq_eq hx (sep_exp_not_u c (by simp [hc]))
+    subst e1
+    have : r' = [] := by simpa using hr
+    subst this
+    rw [parseUnitsChars, hs]
+    exact (reject_dangling_separator a' x' hc).2
+
+theorem raw_reject_exponent_first (s0 a r : List Char) (c d : Char) (hc : c ∈ sepChars) (hd : d ∈ expChars)
+    (h : stripBlank s0 = d :: r ∨ stripBlank s0 = a ++ c :: d :: r) : (parseUnitsChars s0).isError = true := by
+  rcases h with h | h
+  · obtain ⟨a', x', r', hs, ha, hx, _⟩ := uq_split (a := []) (prepUnits_uq s0) (by simpa using h)
+    have e1 := uq_eq hx (sep_exp_not_u d (by simp [hd]))
+    subst e1
+    have : a' = [] := by simpa using ha
+    subst this
+    rw [parseUnitsChars, hs]
+    exact (reject_exponent_first [] r' c x' hc hd).1
+  · obtain ⟨a', x', y', r', hs, hx, hy⟩ := uq_split2 (prepUnits_uq s0) h
+    have e1 := uq_eq hx (sep_exp_not_u c (by simp [hc]))
+    have e2 := uq_eq hy (sep_exp_not_u d (by simp [hd]))
+    subst e1 e2
+    rw [parseUnitsChars, hs]
+    exact (reject_exponent_first a' r' x' y' hc hd).2
+
+theorem raw_reject_fractional_exponent (s0 a r : List Char) (d : Char) (hd : d ∈ expChars)
+    (h : stripBlank s0 = a ++ '.' :: d :: r) : (parseUnitsChars s0).isError = true :=
+  raw_reject_exponent_first s0 a r '.' d (by decide) hd (Or.inr h)
+
+theorem raw_reject_text_after_exponent (s0 a r : List Char) (d y : Char) (hd : d ∈ expChars)
+    (hy : y ∉ sepChars) (hy1 : y.isDigit = false) (hy2 : y ≠ '_') (h : stripBlank s0 = a ++ d :: y :: r) :
+    (parseUnitsChars s0).isError = true := by
+  obtain ⟨a', x', y', r', hs, hx, hyy⟩ := uq_split2 (prepUnits_uq s0) h
+  have e1 := uq_eq hx (sep_exp_not_u d (by simp [hd]))
+  subst e1
+  rw [parseUnitsChars, hs]
+  rcases uq_cases hyy with e | ⟨hy', _⟩
+  · subst e; exact reject_text_after_exponent a' r' x' y' hd hy hy1 hy2
+  · rcases hy' with e | e <;> subst e <;>
+      exact reject_text_after_exponent a' r' x' _ hd (by decide) (by decide) (by decide)
+
+theorem raw_reject_foreign_char (s0 : List Char) (x : Char) (hx : x ∈ stripBlank s0) (hsep : x ∉ sepChars)
+    (hexp : x ∉ expChars) (hd : x.isDigit = false) (hu : x ≠ '_') (hsym : ∀ w ∈ allSyms, x ∉ w.toList) :
+    (parseUnitsChars s0).isError = true := by
+  obtain ⟨a, r, ht⟩ := List.append_of_mem hx
+  obtain ⟨a', x', r', hs, _, hxx, _⟩ := uq_split (prepUnits_uq s0) ht
+  have hnu : x ≠ 'u' ∧ x ≠ 'µ' :=
+    ⟨fun h => hsym "molecule" (by decide) (by rw [h]; decide), fun h => hsym "µm" (by decide) (by rw [h]; decide)⟩
+  have e := uq_eq hxx hnu
+  subst e
+  rw [parseUnitsChars]
+  exact reject_foreign_char _ x' (by rw [hs]; simp) hsep hexp hd hu hsym
+
+theorem raw_reject_signed_positive (s0 : List Char) (hx : '+' ∈ stripBlank s0) :
+    (parseUnitsChars s0).isError = true :=
+  raw_reject_foreign_char s0 '+' hx (by decide) (by decide) (by decide) (by decide)
+    (fun w hw hc => (symbols_alphabet w hw '+' hc).1 rfl)
+
+example : (parseUnitsChars " mol//um.s ".toList).isError = true ∧ (parseUnitsChars "mol.um+1.s-2".toList).isError = true ∧
+    (parseUnitsChars "mol.um-1.5.s-2".toList).isError = true := by decide +kernel
 
 /-! ### quantity text -/
 
